@@ -76,6 +76,14 @@ def materialise(spec):
         ws[0]['max_age'] = 1
         ws[0]['max_age_variance'] = 0
         h['steps'] = h['steps'] + [['adv', 1.3], ['check']] + ([['adv', rnd.choice([0, .05, .3])]] if rnd.random() < .7 else [])
+    elif f < .42:
+        # the operation arrives while another one on the same watcher, sent without waiting, is still spawning: it is
+        # refused, or (quit by signal) done afterwards -- and whenever it is reported complete, nothing is left
+        ws[0]['warmup_delay'] = rnd.choice([0.3, 0.5])
+        ws[0]['numprocesses'] = max(ws[0]['numprocesses'], 2)
+        h['steps'] = h['steps'] + [['req', rnd.choice(['restart', 'reload', 'restart']), {'name': 'a', 'waiting': False}],
+                                   ['adv', rnd.choice([0.05, 0.2, 0.45])]]
+        h['overlap'] = True
     h['tail'] = simgen.gen_steps(rnd, ['a'] if h['op'] == 'stop' else names, TAIL, 2, 6)
     return h
 
@@ -152,10 +160,13 @@ def _history(w, h, res, inject_at, out):
     if w.stalled is not None:
         res.obs['stalled_before_op(C05 owns)'] += 1
         return
-    took = yield w.settle(200.0)
+    took = 0 if h.get('overlap') else (yield w.settle(200.0))
     if took is None or w.stalled is not None:
         res.obs['prefix_not_quiescent(C05 owns)'] += 1
         return
+    if h.get('overlap'):
+        res.obs['ops_sent_while_%s' % ('another_operation_is_in_flight' if w.arb._exclusive_running_command else
+                                       'nothing_is_in_flight')] += 1
     op = h['op']
     names = [c['name'] for c in h['watchers']]
     targets = ['a'] if op in ('stop', 'restart', 'rm') else names
@@ -208,6 +219,12 @@ def _history(w, h, res, inject_at, out):
                 stt = k.procs[pid].state
                 if stt == 'running':
                     bad.append(('survivor', n, pid))
+                elif stt == 'zombie' and h.get('overlap') and pid not in watchers[n].processes \
+                        and any(s_ == 9 and snd == 'circus' for (_t, s_, snd) in k.procs[pid].signals):
+                    # SIGKILLed and dropped from the table by the OTHER operation (the one this request overlapped),
+                    # dead a kernel latency later (or by itself in that very instant): the zombie that leaves until
+                    # the next periodic check is that operation's, the tolerated class of the note above
+                    res.obs['zombies_left_by_the_overlapped_operation(tolerated)'] += 1
                 elif stt == 'zombie':
                     bad.append(('zombie', n, pid))
             for pid in sorted(offbooks.get(n, ())):
